@@ -244,7 +244,12 @@ class WorldB:
         _restore_defaults()
         self._probe_ids = set()
         self.ctx_flags = plan["config"]["contexts"]
-        self.ctxs = [PipelineContext(backend="torch", **f) for f in self.ctx_flags]
+        self.ctxs = [
+            PipelineContext.from_default_backend()
+            if (f["semiring"], f["fold"], f["optimize"]) == ("lse-sum", True, True)
+            else PipelineContext(backend="torch", **f)
+            for f in self.ctx_flags
+        ]
         self.markers: list[Any] = []
         for i, c in enumerate(self.ctxs):
             cls, rule = _make_marker(i)
